@@ -137,7 +137,8 @@ Print Assumptions C01_refuted_reject_changes_state_pre_fix.
 (** Facts regenerated from crypto.go on this run agree with the model: the
     receive prefix of each role is the send prefix of the other, the counter
     sits at offset 4, the overhead is 28, and Decrypt writes the receive
-    counter only after the AEAD open, inside a locked region. *)
+    counter only after the AEAD open, inside a locked region that first
+    re-tests the window (so concurrent calls cannot accept one frame twice). *)
 Theorem C01_source_facts :
   gen_c01_recv_pattern_recognised = true /\
   gen_c01_recv_prefix_initiator = map b2n (recv_prefix Ini) /\
@@ -145,6 +146,7 @@ Theorem C01_source_facts :
   gen_c01_counter_offset = 4 /\ gen_c01_overhead = overhead /\ gen_c01_nonce_size = nonce_size /\
   gen_c01_open_calls = 1 /\ gen_c01_recv_writes_before_open = 0 /\
   1 <= gen_c01_recv_writes_after_open_locked /\ gen_c01_recv_writes_after_open_unlocked = 0 /\
+  gen_c01_commit_region_retests_window = true /\
   gen_c01_recv_counter_writers = ["Decrypt"%string].
 Proof. repeat split; try reflexivity; try (vm_compute; discriminate). Qed.
 Print Assumptions C01_source_facts.
